@@ -81,10 +81,10 @@ def ctor_cases(ctx, drv, pending):
             pending.append(("fromdata", idx, gshape, dict(case, rows=rows)))
 
 
-def named_run(d, pt, cal, rng, container, P):
+def named_run(d, pt, cal, rng, container, P, ui_kwargs=None):
     """model value, predicted state/cov, updated state/cov per sensor — all by name"""
     process, sensor = d._noise
-    ekf = eh.compile_ekf(d, process, sensor, cal, rng, cse=True, container=container)
+    ekf = eh.compile_ekf(d, process, sensor, cal, rng, cse=True, container=container, ui_kwargs=ui_kwargs)
     out = {}
     with fk.quiet():
         st, ct, cv = eh.state_obj(ekf, pt), eh.control_obj(ekf, pt), eh.cov_obj_named(ekf, P)
@@ -151,16 +151,17 @@ def cpp_twins(ctx):
         try:
             # every other pair: the symbols carry a sympy assumption (declared real); they are still the model's symbols
             assume = {"real": True} if i % 2 == 1 else None
-            g1 = cppgen.generate(d, process, sensor, pt["cal"], ctx.scratch, f"r{i}a", filtering=None, rng=ctx.rng, symbol_assumptions=assume)
+            g1 = cppgen.generate(d, process, sensor, pt["cal"], ctx.scratch, f"r{i}a", filtering=None, rng=ctx.rng, symbol_assumptions=assume,
+                                 noise_keys="symbol" if i % 2 == 0 else "same")
             g2 = cppgen.generate(d2, process2, sensor, pt2["cal"], ctx.scratch, f"r{i}b", filtering=None, rng=ctx.rng, container="list",
                                  symbol_assumptions=assume)
         except Exception as e:
             ctx.fail(f"cpp-generate-raises:{fk.exc_kind(e)}", f"C++ generation raises {e!r}"[:300], {"def": d.describe()})
             continue
         jobs += [(g1, d, None), (g2, d2, None)]
-        metas.append((d, d2, m, pt, pt2))
+        metas.append((d, d2, m, pt, pt2, process, sensor))
     built = cppgen.build_many(jobs)
-    for k, (d, d2, m, pt, pt2) in enumerate(metas):
+    for k, (d, d2, m, pt, pt2, process, sensor) in enumerate(metas):
         (e1, err1), (e2, err2) = built[2 * k], built[2 * k + 1]
         case = {"def": d.describe(), "kind": "rename-cpp", "renaming": m, "point": eh.point_json(pt)}
         Ls = sorted(s.name for s in d.state)
@@ -180,6 +181,19 @@ def cpp_twins(ctx):
             continue
         except Exception as e:
             ctx.fail("generated-cpp-crashes", repr(e)[:300], case); continue
+        # the generated C++ and the Python filter store the same values under the same names (here: the updated covariances, which
+        # carry the per-reading noises)
+        try:
+            d._noise = (process, sensor)
+            py = named_run(d, pt, pt["cal"], ctx.rng, "set", P)
+            for what in [w for w in base if w.startswith("update_cov")]:
+                scl = max(abs(x) for x in py[what].values())
+                badk = [kk for kk, vv in py[what].items() if not core.close(base[what].get(kk, float("nan")), vv, scale=scl)]
+                if badk:
+                    ctx.fail("rename:cpp-vs-python:update_cov", f"{what}[{badk[0]}]: generated C++ gives {base[what].get(badk[0])!r}, the Python filter {py[what][badk[0]]!r}", case)
+                    break
+        except Exception as e:
+            ctx.fail(f"run-raises:{fk.exc_kind(e)}", repr(e)[:300], case)
         for what, vals in base.items():
             for key, v in vals.items():
                 k2 = (m[key[0]], m[key[1]]) if isinstance(key, tuple) else m[key]
@@ -308,7 +322,10 @@ def run(ctx):
             ctx.case(case, nontrivial=permuted or kind == "redeclare")
             ctx.count(f"twin={kind}"); ctx.count("layout_permuted" if permuted else "layout_same")
             try:
-                tw = named_run(d2, pt2, pt2["cal"], ctx.rng, ctx.rng.choice(["set", "list"]), P2)
+                # every other twin is declared with the optional model switch on (it changes how expressions are written, not
+                # what is stored under which name)
+                flags = {"proactive_simplify": True} if (len(twins) and twins.index((kind, m)) % 2 == 1) else None
+                tw = named_run(d2, pt2, pt2["cal"], ctx.rng, ctx.rng.choice(["set", "list"]), P2, ui_kwargs=flags)
             except Exception as e:
                 ctx.fail(f"twin-raises:{kind}:{fk.exc_kind(e)}", f"{kind} twin raises {e!r}"[:300], case)
                 continue
